@@ -39,7 +39,7 @@ GenCall ==
     \E b \in (IF op \in BinOps THEN Operands(Len(hist)) ELSE {[k |-> "none"]}) :
         LET st == [op |-> op, a |-> a, b |-> b, o |-> o, new |-> nw, k |-> IF op = "ScaleUp" THEN 1 + (k % 3) ELSE k] IN
         /\ TypeFits(b) /\ RealFits(b)
-        /\ \E d \in 1..2 : \E e \in BOOLEAN : Call(st, [deg |-> d, err |-> e]) /\ (e \/ d = CHOOSE x \in Res(st).degs : \A y \in Res(st).degs : x <= y)
+        /\ \E d \in 1..2 : \E e \in BOOLEAN : Call(st, [deg |-> d, err |-> e, lvl |-> 0 - 1]) /\ (e \/ d = CHOOSE x \in Res(st).degs : \A y \in Res(st).degs : x <= y)
         /\ InBounds'
         /\ hist' = Append(hist, st)
 
@@ -67,7 +67,7 @@ PrefixStep(st) ==
          [] st.op = "Load"  -> Load(st.o, [i \in Slot |-> st.v[i]], st.fb, st.ls, st.lvl)
          [] st.op = "DropLevel" -> DropLevel(st.a, st.k)
          [] st.op = "SetScale" -> SetScale(st.a, st.k, FALSE)
-         [] OTHER -> \E d \in 1..2 : Call(st, [deg |-> d, err |-> FALSE]) /\ d = CHOOSE x \in Res(st).degs : \A y \in Res(st).degs : x <= y
+         [] OTHER -> \E d \in 1..2 : Call(st, [deg |-> d, err |-> FALSE, lvl |-> 0 - 1]) /\ d = CHOOSE x \in Res(st).degs : \A y \in Res(st).degs : x <= y
     /\ hist' = Append(hist, st)
 
 GenNext ==
